@@ -42,7 +42,26 @@ func (c *Case) RebuildArgs() {
 	}
 	c.Spec.Nodes = nodes
 	if listPath != "" {
-		c.Spec.Nodes = append(c.Spec.Nodes, world.NodeSpec{Path: listPath, Kind: "file", Data: []byte(strings.Join(list, "\n") + "\n")})
+		text := strings.Join(list, "\n") + "\n"
+		switch c.Extra["list_style"] {
+		case "blank-lines":
+			text = "\n" + strings.Join(list, "\n\n") + "\n\n"
+		case "ws-lines":
+			text = " \t \n" + strings.Join(list, "\n   \n") + "\n\t\n"
+		case "crlf":
+			text = strings.Join(list, "\r\n") + "\r\n"
+		case "no-final-nl":
+			text = strings.Join(list, "\n")
+		case "comment":
+			text = "# patches\n" + text
+		case "trailing-space":
+			text = strings.Join(list, " \n") + " \n"
+		case "empty":
+			text = ""
+		case "nul":
+			text = strings.Join(list, "\x00\n") + "\n"
+		}
+		c.Spec.Nodes = append(c.Spec.Nodes, world.NodeSpec{Path: listPath, Kind: "file", Data: []byte(text)})
 		args = append(args, "-P", listPath)
 	}
 	args = append(args, c.Targets...)
